@@ -92,6 +92,10 @@ public:
     template<typename View>
     void apply( const View& view )
     {
+        // read_image() and read_view() take the reader by value: the error handler must
+        // jump to the _mark of this copy, not to the one of the object it was copied from.
+        this->get()->client_data = static_cast< backend_t* >( this );
+
         // Fire exception in case of error.
         if( setjmp( this->_mark ))
         {
@@ -149,6 +153,12 @@ public:
                 break;
             }
             default: { io_error( "Unsupported jpeg color space." ); }
+        }
+
+        // read_rows() armed _mark in its own frame, which is gone by now
+        if( setjmp( this->_mark ))
+        {
+            this->raise_error();
         }
 
         jpeg_finish_decompress ( this->get() );
